@@ -478,7 +478,8 @@ impl World {
             let is_marker = matches!(p, Pending::Wait(_) | Pending::Idle | Pending::CallStart(_) | Pending::CallEnd);
             let markers_yield = s_markers_yield;
             let y = !(th.free_run || runnable <= 1 && !is_marker) && !(is_marker && !markers_yield);
-            let total = th.accesses_total;
+            // the budget bounds the work of client threads; a writer may publish as much as it likes
+            let total = if th.is_writer { 0 } else { th.accesses_total };
             if total > s.access_budget {
                 s.budget_exceeded = true;
             }
